@@ -241,6 +241,25 @@ def observe(main, table, use_loader, follow, want_dump=True):
         except Exception as ex:
             obs['exc'] = _exc(ex)
         obs['loader_calls'] = loader.calls if loader else []
+        # the answer does not depend on what was asked before on the same object: ask with the other follow_links value first
+        obs['history_dependent'] = None
+        if want_dump and 'exc' not in obs:
+            try:
+                ef2 = ELFFile(io.BytesIO(main), stream_loader=Loader(table)) if use_loader else ELFFile(io.BytesIO(main))
+                try:
+                    ef2.get_dwarf_info(follow_links=not follow)
+                except core.CallTimeout:
+                    raise
+                except Exception:
+                    pass
+                d2 = full_dump(ef2.get_dwarf_info(follow_links=follow))
+                if d2 != obs['dump']:
+                    k = sorted(x for x in set(d2) | set(obs['dump']) if d2.get(x) != obs['dump'].get(x))
+                    obs['history_dependent'] = k[:3]
+            except core.CallTimeout:
+                raise
+            except Exception as ex:
+                obs['history_dependent'] = ['exception:' + type(ex).__name__]
     return obs
 
 
@@ -387,6 +406,8 @@ def run_spec_cases(run, res, only_tag=None):
         if 'open_exc' in o:
             bad('open', 'ELFFile', o['open_exc'])
             continue
+        if o.get('history_dependent'):
+            bad('follow_links_history', 'the same DWARF view whatever was asked before on the object', o['history_dependent'])
         for f in ('has_strict', 'has_nonstrict', 'has_link'):
             if o[f] != case[f]:
                 bad(f, case[f], o[f])
@@ -686,6 +707,8 @@ def run_corpus(run, layout, files, levels, objcopy, only=None):
             except core.CallTimeout as ex:
                 run.mismatch('corpus.timeout', tag, brief, 'an answer', str(ex))
                 continue
+            if o.get('history_dependent'):
+                run.mismatch('corpus.follow_links_history', tag, brief, 'the same DWARF view whatever was asked before', o['history_dependent'])
             if 'open_exc' in o:
                 run.mismatch('corpus.open', tag, brief, 'ELFFile', o['open_exc'])
                 continue
